@@ -13,8 +13,31 @@ type CTooBox struct {
 }
 
 // DataBox - data box used by ffmpeg for providing information.
+//
+// The value is preceded by a type indicator and a locale (QuickTime/iTunes metadata value atom).
+// A box made in code is written with type indicator 1 (UTF-8) and locale 0; a decoded box keeps
+// the values that were read (TypeIndicator, Locale) and writes them back.
 type DataBox struct {
-	Data []byte
+	Data          []byte
+	prefixDecoded bool   // typeIndicator and locale come from a decoded box
+	typeIndicator uint32 // e.g. 1 = UTF-8, 13 = JPEG, 21 = signed integer
+	locale        uint32
+}
+
+// TypeIndicator - type indicator of the value (1, UTF-8, unless the box was decoded with another one)
+func (b *DataBox) TypeIndicator() uint32 {
+	if b.prefixDecoded {
+		return b.typeIndicator
+	}
+	return 1
+}
+
+// Locale - locale indicator of the value (0 unless the box was decoded with another one)
+func (b *DataBox) Locale() uint32 {
+	if b.prefixDecoded {
+		return b.locale
+	}
+	return 0
 }
 
 // DecodeData - decode Data (from mov_write_string_data_tag in movenc.c in ffmpeg)
@@ -29,9 +52,14 @@ func DecodeData(hdr BoxHeader, startPos uint64, r io.Reader) (Box, error) {
 
 // DecodeDataSR - decode Data (from mov_write_string_data_tag in movenc.c in ffmpeg)
 func DecodeDataSR(hdr BoxHeader, startPos uint64, sr bits.SliceReader) (Box, error) {
-	_ = sr.ReadUint32() // Should be 1
-	_ = sr.ReadUint32() // Should be 0
-	return &DataBox{sr.ReadBytes(hdr.payloadLen() - 8)}, sr.AccError()
+	typeIndicator := sr.ReadUint32() // 1 when written by ffmpeg (UTF-8)
+	locale := sr.ReadUint32()        // 0 when written by ffmpeg
+	return &DataBox{
+		Data:          sr.ReadBytes(hdr.payloadLen() - 8),
+		prefixDecoded: true,
+		typeIndicator: typeIndicator,
+		locale:        locale,
+	}, sr.AccError()
 }
 
 // Type - box type
@@ -61,8 +89,8 @@ func (b *DataBox) EncodeSW(sw bits.SliceWriter) error {
 	if err != nil {
 		return err
 	}
-	sw.WriteUint32(0x00000001)
-	sw.WriteUint32(0x00000000)
+	sw.WriteUint32(b.TypeIndicator())
+	sw.WriteUint32(b.Locale())
 	sw.WriteBytes(b.Data)
 	return sw.AccError()
 }
